@@ -129,8 +129,8 @@ PLANS = {
              explanation="every method of the two dict classes refines the reference ordered dict keyed by lower-cased keys and preserves the representation invariant (states of 0..2 symbolic keys; longer histories by the invariant); CPython's dispatch to overridden methods is assumed and validated by exhaustive short operation sequences"),
  "C18": dict(level="proof", pred=by("mappyfile.dictutils."), b=["b_update_find"], canaries=["overwrite_flag", "find_defaulting"],
              explanation="update / find / findall / findkey proved on fixed small shapes with symbolic keys and values (both overwrite modes, delete markers, None placeholders, appended items); findunique (set/sorted of symbolic values) is bounded only"),
- "C19": dict(level="proof", pred=by(PP + "get_attribute_properties", TR + "plural", TR + "composite_type", "mappyfile.utils.create"), e=["c19_tables"], b=["b_vocabulary"], canaries=["singleton_plural"],
-             explanation="finite and enumerated completely: table invariants over grammar x tokens.py x schemas, and every (type, keyword, value alternative, position, context) cell through the real API"),
+ "C19": dict(level="other", pred=by(PP + "get_attribute_properties", TR + "plural", TR + "composite_type", "mappyfile.utils.create"), e=["c19_tables"], b=["b_vocabulary"], canaries=["singleton_plural"],
+             explanation="finite and enumerated completely: table invariants over grammar x tokens.py x schemas, and every (type, keyword, value alternative, position, context) cell through the real API. Level other (not proof): three table obligations are refuted on the unchanged tree and are listed known findings (class.symbol / style.symbol stored under symbols, LABEL BACKGROUNDSHADOWSIZE default), so not every obligation is discharged"),
  "C20": dict(level="proof", pred=by("mappyfile.utils.", "mappyfile.cli.", "mappyfile.parser.Parser.load", "mappyfile.parser.Parser.parse_file"), b=["b_frontends"], canaries=["loader_flags", "exit_status"],
              explanation="the three loaders are the same term transform[flags](parse[flags](source)); the three writers the same _pprint term written once (UTF-8 for save); CLI format/schema are term-equal to the API calls; validate's exit status = min(problems, 255) by loop contracts with ghost counters"),
 }
